@@ -12,8 +12,14 @@ package main
 // Next to the ranges the handler reports what gopkg.in/yaml.v3 itself says about the nodes of every document
 // (line, column, kind, style, tag, value, index of the last child), and for each range that was reached by walking
 // Exprs in parallel with the YAML tree, the index of the YAML node it belongs to.  No diagnostic text is reported.
+//
+// The library github.com/rivo/uniseg is a collaborator of the code under test, like yaml.v3: the handler reports the
+// library's own answers for the bytes of the case, and the model is fed with them — for every line that contains a
+// non-ASCII byte the grapheme clusters uniseg.Step yields (byte length, width), and for every scalar whose value is
+// not printable ASCII (plain style: the only one ScalarRange handles) uniseg.StringWidth of each of its prefixes.
 
 import (
+	"bytes"
 	"context"
 	"encoding/hex"
 	"errors"
@@ -22,6 +28,7 @@ import (
 	"github.com/pulumi/esc"
 	"github.com/pulumi/esc/eval"
 	"github.com/pulumi/esc/syntax"
+	"github.com/rivo/uniseg"
 	"gopkg.in/yaml.v3"
 )
 
@@ -223,6 +230,55 @@ func (o *c19Out) diags(ds syntax.Diagnostics, file string) {
 	}
 }
 
+// c19Segs: for every line with a non-ASCII byte, [line index, len, width, len, width, ...] as uniseg.Step yields them.
+func c19Segs(src []byte) [][]int {
+	out := [][]int{}
+	i := 0
+	for {
+		line, rest, found := bytes.Cut(src, []byte{'\n'})
+		ascii := true
+		for _, b := range line {
+			if b&0x80 != 0 {
+				ascii = false
+				break
+			}
+		}
+		if !ascii {
+			row := []int{i}
+			r, state := line, -1
+			for len(r) > 0 {
+				cluster, nr, w, ns := uniseg.Step(r, state)
+				row = append(row, len(cluster), w>>uniseg.ShiftWidth)
+				r, state = nr, ns
+			}
+			out = append(out, row)
+		}
+		if !found {
+			return out
+		}
+		src, i = rest, i+1
+	}
+}
+
+// c19PrefixWidths: uniseg.StringWidth(v[:k]) for k = 0..len(v); nil for printable ASCII (width = length).
+func c19PrefixWidths(v string) []int {
+	plain := true
+	for i := 0; i < len(v); i++ {
+		if v[i] < 0x20 || v[i] >= 0x7f {
+			plain = false
+			break
+		}
+	}
+	if plain || len(v) > 20000 {
+		return []int{}
+	}
+	out := make([]int, len(v)+1)
+	for k := 0; k <= len(v); k++ {
+		out[k] = uniseg.StringWidth(v[:k])
+	}
+	return out
+}
+
 func c19(c map[string]any) map[string]any {
 	envs := c19Envs{docs: map[string]*c19Doc{}}
 	raw, _ := c["envs"].(map[string]any)
@@ -312,11 +368,15 @@ func c19(c map[string]any) map[string]any {
 			if len(n.Content) != 0 {
 				last = d.index[n.Content[len(n.Content)-1]]
 			}
+			pw := []int{}
+			if n.Kind == yaml.ScalarNode && (n.Style == 0 || n.Style == yaml.FlowStyle) {
+				pw = c19PrefixWidths(n.Value)
+			}
 			nodes[i] = map[string]any{"line": n.Line, "col": n.Column, "kind": int(n.Kind), "style": int(n.Style),
 				"tag": hex.EncodeToString([]byte(n.Tag)), "value": hex.EncodeToString([]byte(n.Value)), "last": last,
-				"anch": n.Anchor != ""}
+				"anch": n.Anchor != "", "pw": pw}
 		}
-		docs = append(docs, map[string]any{"name": name, "yaml_ok": d.root != nil, "nodes": nodes})
+		docs = append(docs, map[string]any{"name": name, "yaml_ok": d.root != nil, "nodes": nodes, "segs": c19Segs(d.src)})
 	}
 	// drop exact duplicates (the same range is reachable along many paths), keep the first occurrence's order
 	seen := map[string]bool{}
